@@ -366,6 +366,32 @@ func c16Severity(c *Ctx, p *core.Prog, pk *types.Package) {
 						inSwitch[s] = true
 					}
 				}
+				// a lookup table keyed by Severity instead of a switch: its keys are the severities counted
+				if lk, ok := in.(*ssa.Lookup); ok {
+					if u, ok := lk.X.(*ssa.UnOp); ok {
+						if g, ok := u.X.(*ssa.Global); ok {
+							if init := sp.Func("init"); init != nil {
+								for _, ib := range init.Blocks {
+									for _, ii := range ib.Instrs {
+										mu, ok := ii.(*ssa.MapUpdate)
+										if !ok {
+											continue
+										}
+										isG := false
+										for _, ref := range core.Referrers(mu.Map) {
+											if st, ok := ref.(*ssa.Store); ok && st.Addr == ssa.Value(g) {
+												isG = true
+											}
+										}
+										if s, ok := core.ConstString(mu.Key); ok && isG {
+											inSwitch[s] = true
+										}
+									}
+								}
+							}
+						}
+					}
+				}
 				if st, ok := in.(*ssa.Store); ok {
 					if fa, ok := st.Addr.(*ssa.FieldAddr); ok && core.FieldName(fa.X.Type(), fa.Field) == "TotalCount" {
 						if l := core.LenOf(st.Val); l != nil {
